@@ -460,11 +460,13 @@ class XGen:
             self.body(depth + 1, inner, unit, lines)
 
     def body(self, depth, ind, unit, lines):
-        n = 1 + self.k(3 if depth else 4)
+        n = 1 + self.k(2 if depth else 4)
+        if len(lines) > 22:
+            n = 1
         for i in range(n):
             self.filler(depth, ind, lines)
             c = self.k(10)
-            if depth < 4 and c < 3:
+            if depth < 3 and c < 3 and len(lines) < 22:
                 self.block(depth, ind, unit, lines)
             elif c == 3:
                 lines.extend(self.block_macro(ind, unit))
